@@ -1,7 +1,8 @@
 (* Props/C06.v — property theorems only. *)
 From Coq Require Import List NArith ZArith.
 From N0 Require Import Base.PyStr Base.PyVal Xpath.Dec Xpath.DecProofs Xpath.Token Xpath.TokenProofs
-  Xpath.Find Xpath.FindProofs Xpath.Write Xpath.SpecProofs Xpath.WalkProofs Xpath.FanoutProofs.
+  Xpath.Find Xpath.FindProofs Xpath.Write Xpath.SpecProofs Xpath.WalkProofs Xpath.TokenizeProofs Xpath.EnumProofs
+  Xpath.FstrProofs Xpath.FanoutProofs Xpath.PredProofs.
 Import ListNotations.
 
 (* For a list of dict records reached by a concrete path P, 'P/[*]/f' returns the values
@@ -29,6 +30,55 @@ Theorem C06_fanout_shorthand :
   dict_get_core fuel root x re rl dflt = Ok (root, fanout_result re rl dflt (select_all f items)).
 Proof. exact fanout_shorthand_lookup. Qed.
 Print Assumptions C06_fanout_shorthand.
+
+(* 'P[k=v]/f' (the predicate on the name token) and 'P/[k=v]/f': for a non-empty list of dict
+   records reached by a concrete path P from the root, the result is f of exactly the
+   records whose k equals the literal v (rec_select: records without k select nothing; the
+   literal is converted to the field's numeric type; each matching record contributes its f
+   if it has one), in list order; a miss when nothing is selected; the tree is unchanged.
+   The proof follows the resolver through the rewrite [k=v] -> k/[text()==v]/.. and the
+   re-resolution of the found path by the '..' step (found-path invariant, FstrProofs). *)
+Theorem C06_predicate_eq_on_name :
+  forall fuel root x re rl dflt toks0 p0 c0 kvs0 segs0 name c r0 items yk fk k f v,
+  keys_good root ->
+  has_path_char x = true -> tokenize x = toks0 ++ [yk; fk] ->
+  walks root toks0 p0 (Dict c0 kvs0) segs0 ->
+  split_name_index yk = Ok (name, IdxPred k op_eq (PvStr v)) ->
+  split_name_index name = Ok (name, IdxNone) -> plain_key name ->
+  lookup name kvs0 = Some (Lst c (r0 :: items)) ->
+  pstr_eqb k s_text = false -> clean_lit v -> quoted_pred_ok k v ->
+  split_name_index fk = Ok (f, IdxNone) -> plain_key f ->
+  all_selectable k f v (r0 :: items) ->
+  2 * length toks0 + 2 * (length segs0 + 2) + 12 <= fuel ->
+  dict_get_core fuel root x re rl dflt =
+  Ok (root, fanout_result re rl dflt (flat_map (sel_list (rec_select k f v)) (r0 :: items))).
+Proof. exact pred_lookup_name. Qed.
+Print Assumptions C06_predicate_eq_on_name.
+
+Theorem C06_predicate_eq_step :
+  forall fuel root x re rl dflt toks p c r0 items segs y fk k f v,
+  keys_good root ->
+  has_path_char x = true -> tokenize x = toks ++ [y; fk] ->
+  walks root toks p (Lst c (r0 :: items)) segs ->
+  split_name_index y = Ok ([], IdxPred k op_eq (PvStr v)) -> pstr_eqb k s_text = false -> clean_lit v ->
+  split_name_index fk = Ok (f, IdxNone) -> plain_key f ->
+  all_selectable k f v (r0 :: items) ->
+  2 * length toks + 2 * (length segs + 1) + 10 <= fuel ->
+  dict_get_core fuel root x re rl dflt =
+  Ok (root, fanout_result re rl dflt (flat_map (sel_list (rec_select k f v)) (r0 :: items))).
+Proof. exact pred_lookup. Qed.
+Print Assumptions C06_predicate_eq_step.
+
+(* non-vacuity: r[k=a]/f on four records selects the f of the two whose k is "a" *)
+Theorem C06_predicate_nonvacuous :
+  keys_good pr_root /\
+  all_selectable [107]%N [102]%N [97]%N pr_recs /\
+  flat_map (sel_list (rec_select [107]%N [102]%N [97]%N)) pr_recs = [Leaf (SInt 1); Leaf (SInt 3)] /\
+  clean_lit [97]%N /\ quoted_pred_ok [107]%N [97]%N /\
+  dict_get_core (fuel_for pr_root pr_x) pr_root pr_x true true LDefault
+  = Ok (pr_root, LVal (Lst true [Leaf (SInt 1); Leaf (SInt 3)])).
+Proof. exact pred_example. Qed.
+Print Assumptions C06_predicate_nonvacuous.
 
 Theorem C06_agg_lists : forall vals, agg true vals = Lst true vals.
 Proof. exact agg_lists. Qed.
